@@ -10,6 +10,13 @@ from harness.common import engine_run, coq_crosscheck, fq, unfval
 
 TARGETS = ["theories/Props/C02.vo", "theories/Proofs/GenEq_ResultCalc.vo", "theories/Proofs/GenEq_EvalTP.vo", "theories/Proofs/GenEq_EdgeCase.vo"]
 GENEQ = {"theories/Proofs/GenEq_ResultCalc.vo": "ResultCalc", "theories/Proofs/GenEq_EvalTP.vo": "EvalTP", "theories/Proofs/GenEq_EdgeCase.vo": "EdgeCase"}
+# units added to the cone after round 2 of the seeded changes (a refused / changed unit must be noticed by this check too)
+TARGETS = TARGETS + ["theories/Proofs/GenEq_MetricTable.vo"]
+GENEQ = dict(GENEQ, **{"theories/Proofs/GenEq_MetricTable.vo": "MetricTable"})
+TARGETS = TARGETS + ["theories/Proofs/GenEq_Groups.vo"]
+GENEQ = dict(GENEQ, **{"theories/Proofs/GenEq_Groups.vo": "Groups"})
+TARGETS = TARGETS + ["theories/Proofs/GenEq_EvalSM.vo"]
+GENEQ = dict(GENEQ, **{"theories/Proofs/GenEq_EvalSM.vo": "EvalSM"})
 ALLOWED_AXIOMS = []
 RULE = ("(i) evaluate() on random/structured pairs x input type x matcher (naive, many-to-one, merge) x matching metric/threshold x decision "
         "metric in {none, IOU, DSC, ASSD} x decision thresholds where 0, some or all instances fail; the identities are checked directly on "
